@@ -221,6 +221,11 @@ fn main() {
             d_rcsmall::run(&prop, seed, &a.str("export", ""), par, a.num("nctx", 2) as usize, &mut rep);
             finish(rep, &a);
         }
+        "carrysearch" if a.get("long-carry").is_some() => {
+            // steered search for carries through long runs of pending bytes; appends to the corpus file
+            let targets: Vec<u64> = a.str("long-carry", "9,12,16,24,40").split(',').filter_map(|t| t.parse().ok()).collect();
+            d_carry::search_long_carry(&targets, &a.str("out-file", "/verif/corpus/enc_edge_inputs.json"));
+        }
         "carrysearch" => {
             d_carry::search(a.num("seconds", 600), a.num("threads", 12) as usize, a.num("len", 700) as usize, &a.str("out-file", "/verif/corpus/enc_edge_inputs.json"));
         }
